@@ -268,9 +268,19 @@ func (env *Zlisp) MakeSymbol(name string) *SexpSymbol {
 	return symbol
 }
 
+// GenSymbol returns a symbol that is not in the symbol table yet.
+// The candidate name prefix+nextsymbol may already be taken: a script
+// can intern any name (str2sym, read), and interpreters made by
+// Duplicate/Clone share the tables but carry their own copy of the
+// counter. So advance the counter until the candidate name is unused.
 func (env *Zlisp) GenSymbol(prefix string) *SexpSymbol {
-	symname := prefix + strconv.Itoa(env.nextsymbol)
-	return env.MakeSymbol(symname)
+	for {
+		symname := prefix + strconv.Itoa(env.nextsymbol)
+		if _, taken := env.symtable[symname]; !taken {
+			return env.MakeSymbol(symname)
+		}
+		env.nextsymbol++
+	}
 }
 
 func (env *Zlisp) CurrentFunctionSize() int {
